@@ -250,3 +250,18 @@ PROPS["C11"] = dict(
     assumptions=[],
     rule="bounded: networks x simulators; distinct = distinct (network, simulator, check) triples",
 )
+
+PROPS["C14"] = dict(
+    level="proof",
+    explanation="Representation invariant of the registries proved per operation on an ARBITRARY registry state (uninterpreted membership / usage / cardinality "
+                "predicates under RegInv), so every finite edit history preserves it: Registry.add_usage / remove_usage / __delitem__, NodeRegistry and "
+                "LinkRegistry __setitem__ / __delitem__ (every link class, same-node ends, speed pattern, curves), CurveRegistry.__delitem__, the Link.start_node "
+                "/ end_node setters (incl. both ends on one node), WaterNetworkModel.remove_node / remove_link (a refused removal changes nothing), "
+                "get_links_for_node. Posts are over the whole view: touched keys change as specified and an arbitrary other key of every registry is unchanged. "
+                "Bounded: random edit histories on real models behind a run-time checker of all views (name lists, counts, typed iterators, to_graph, usage).",
+    trusted_base=["OrderedDict / OrderedSet have set / map semantics", "usage sets are abstracted as membership predicate + cardinality (contracts/c14_registry.py:USet)"],
+    not_decided=["add_junction / add_tank / add_pipe / add_pump / add_valve / add_pattern / add_curve / add_source bodies, to_graph, describe: bounded (edit histories) only",
+                 "SourceRegistry.__delitem__ and the element setters that move pattern / curve usage (vol_curve_name, pump_curve_name, speed pattern): bounded only"],
+    assumptions=["names are non-empty strings; distinct declared names are pairwise different (aliasing cases are separate cases)"],
+    rule="bounded: random histories; distinct = distinct operation sequences",
+)
